@@ -265,9 +265,9 @@ func srSequences() []string {
 }
 
 func partSR() {
-	gaps := []int64{0, 1, 1e6, 1e9, 3600e9}
+	gaps := []int64{0, 1, 1e6, 1e9, 3600e9, 30 * 3600e9, 60 * 3600e9} // the last two: nanoseconds x clock rate beyond 2^63 at 90 kHz / 44.1 kHz
 	if run.Thorough() {
-		gaps = append(gaps, 333333, 14*3600e9)
+		gaps = append(gaps, 333333, 14*3600e9, 400*3600e9)
 	}
 	seqs := srSequences()
 	run.Set("sr_event_strings", len(seqs))
